@@ -105,33 +105,52 @@ def parse_gt(text):
 
 
 class RecordSpec:
-    """Concrete description of one single-sample record: chrom, start (may be
-    symbolic), ref, alt, gt text, ordered extra FORMAT fields [(key, text)]."""
+    """Concrete description of one record: chrom, start (may be symbolic), ref, alt, gt text, ordered extra FORMAT
+    fields [(key, text)] of the first sample; `more`: [(gt text, extra)] for further sample columns.  The record's FORMAT is
+    GT followed by the union of the extra keys in order of appearance; a sample without a value for a key shows `.`."""
 
-    def __init__(self, chrom, start, ref, alt, gt, extra=()):
+    def __init__(self, chrom, start, ref, alt, gt, extra=(), more=()):
         self.chrom, self.start, self.ref, self.alt, self.gt, self.extra = chrom, start, ref, alt, gt, list(extra)
+        self.more = [(g, list(x)) for g, x in more]
+
+    def _columns(self):
+        cols = [(self.gt, self.extra)] + self.more
+        keys = []
+        for _, extra in cols:
+            for k, _t in extra:
+                if k not in keys:
+                    keys.append(k)
+        return cols, keys
 
     def to_record(self, sample_names):
-        gt, phased = parse_gt(self.gt)
-        fields = {"GT": gt}
-        for k, text in self.extra:
-            if k == "PS":
-                fields[k] = None if text == "." else int(text)
-            elif k == "HP":
-                fields[k] = tuple(text.split(","))  # '.' -> ('.',)
-            else:
-                raise ValueError("FORMAT key %s not modelled" % k)
-        return Record(self.chrom, self.start, self.ref, [self.alt], Samples(sample_names, [Call(fields, phased)]))
+        cols, keys = self._columns()
+        calls = []
+        for gt_text, extra in cols:
+            gt, phased = parse_gt(gt_text)
+            fields = {"GT": gt}
+            given = dict(extra)
+            for k in keys:
+                text = given.get(k, ".")
+                if k == "PS":
+                    fields[k] = None if text == "." else int(text)
+                elif k == "HP":
+                    fields[k] = tuple(text.split(","))  # '.' -> ('.',)
+                else:
+                    raise ValueError("FORMAT key %s not modelled" % k)
+            calls.append(Call(fields, phased))
+        return Record(self.chrom, self.start, self.ref, [self.alt], Samples(sample_names, calls))
 
     def to_line(self):
-        fmt = ":".join(["GT"] + [k for k, _ in self.extra])
-        val = ":".join([self.gt] + [t for _, t in self.extra])
-        return "\t".join([self.chrom, str(int(self.start) + 1), ".", self.ref, self.alt, ".", ".", ".", fmt, val])
+        cols, keys = self._columns()
+        fmt = ":".join(["GT"] + keys)
+        vals = [":".join([gt] + [dict(extra).get(k, ".") for k in keys]) for gt, extra in cols]
+        return "\t".join([self.chrom, str(int(self.start) + 1), ".", self.ref, self.alt, ".", ".", ".", fmt] + vals)
 
 
 class VcfContent:
-    def __init__(self, sample, contigs, records, indexed=False):
+    def __init__(self, sample, contigs, records, indexed=False, more_samples=()):
         self.sample = sample
+        self.samples = [sample] + list(more_samples)  # column order
         self.contigs = list(contigs)  # [(name, length or None)]
         self.records = list(records)  # [RecordSpec] in file order
         self.indexed = indexed  # stands for a bgzip-compressed file with a .tbi/.csi next to it
@@ -143,7 +162,7 @@ class VcfContent:
         lines.append('##FORMAT=<ID=GT,Number=1,Type=String,Description="Genotype">')
         lines.append('##FORMAT=<ID=PS,Number=1,Type=Integer,Description="Phase set">')
         lines.append('##FORMAT=<ID=HP,Number=.,Type=String,Description="Phasing haplotype identifier">')
-        lines.append("\t".join(["#CHROM", "POS", "ID", "REF", "ALT", "QUAL", "FILTER", "INFO", "FORMAT", self.sample]))
+        lines.append("\t".join(["#CHROM", "POS", "ID", "REF", "ALT", "QUAL", "FILTER", "INFO", "FORMAT"] + self.samples))
         for r in self.records:
             lines.append(r.to_line())
         return "\n".join(lines) + "\n"
@@ -157,9 +176,10 @@ class VariantFile:
         content = FILES[path]
         self._content = content
         self.filename = path.encode()
-        self.header = Header([content.sample], [Contig(n, l) for n, l in content.contigs])
+        names = list(getattr(content, "samples", [content.sample]))
+        self.header = Header(names, [Contig(n, l) for n, l in content.contigs])
         self.index = object() if getattr(content, "indexed", False) else None
-        self._records = [r.to_record([content.sample]) for r in content.records]
+        self._records = [r.to_record(names) for r in content.records]
 
     def __iter__(self):
         return iter(self._records)
